@@ -70,7 +70,7 @@ def _classify(val, ctx=None, body=None):
     return "other:" + term_str(val)
 
 
-def _setter_effects(ctx, b):
+def _setter_effects(ctx, b, _depth=0):
     """{field: kind} per path (all paths must agree)"""
     pe = ctx.paths(b)
     res = []
@@ -120,6 +120,26 @@ def _setter_effects(ctx, b):
                         eff.setdefault(a0[2], "call:" + e.ck.split("::")[-1])
         inv, _bf = _roles(ctx)
         eff = {inv.get(f, f): k for f, k in eff.items()}
+        # `self.with_reducers(vec![reducer])`: a setter that delegates to another setter of the
+        # builder has that setter's effects, with the callee's parameter replaced by what is
+        # passed to it
+        rcall = strip_wrap(ret)
+        if rcall[0] == "call" and not eff and _depth < 3:
+            ev = [e for e in p.calls() if e.result == rcall and e.site is not None]
+            cb = ctx.prog.callee_body(ev[0].site) if ev else None
+            if cb is not None and (cb.j.get("impl_adt") or "").split("<")[0] == (b.j.get("impl_adt") or "?").split("<")[0] and "StoreBuilder" in cb.local_ty(0) and ev[0].args and strip_wrap(ev[0].args[0]) == ("param", 1):
+                sub = _setter_effects(ctx, cb, _depth + 1)
+                if sub and all(sb == ("param", 1) for _p, _e, sb in sub) and all(se == sub[0][1] for _p, se, _b in sub):
+                    base = ("param", 1)
+                    for f, kind in sub[0][1].items():
+                        if kind == "param" and len(ev[0].args) > 1:
+                            eff[f] = _classify(ev[0].args[1], ctx, b)
+                        elif kind == "push" and len(ev[0].args) > 1 and strip_wrap(ev[0].args[1]) == ("param", 2):
+                            eff[f] = "push"
+                        elif kind.startswith("const:"):
+                            eff[f] = kind
+                        else:
+                            eff[f] = "other:via " + short(cb.path) + ":" + kind
         res.append((p, eff, base))
     return res
 
